@@ -1,5 +1,5 @@
 (* regenerated on every run by harness/cmd/translate (eventwriter) from
-   common/event/writer.go *)
+   common/event/writer.go and common/event/fifobuffer.go *)
 From Verif Require Import Common.
 Open Scope N_scope.
 Definition ew_chan_cap : N := 10000.          (* cap(toBatchMessagesChan) *)
@@ -7,6 +7,7 @@ Definition ew_done_cap : N := 1.          (* cap(batchingLoopDoneCh) *)
 Definition ew_batch_max : N := 100.         (* PopMultiple argument, default branch *)
 Definition ew_drain_on_done : bool := true.  (* done branch drains the buffer before returning *)
 Definition ew_drain_batch_max : N := 100.   (* PopMultiple argument, drain loop *)
+Definition ew_release_sticky : bool := true. (* ReleaseGoroutines sets a flag, before Broadcast, on which PopMultiple returns instead of waiting *)
 (* key source per case of the type switch in internalEventToKafkaEvent:
    0 = no key, 1 = e.Taskid, 2 = extractAndConvertEnvID(e).  Kinds: 0=Ev_MetaEvent_CoreStart 1=Ev_MetaEvent_MesosHeartbeat 2=Ev_MetaEvent_FrameworkEvent 3=Ev_TaskEvent 4=Ev_RoleEvent 5=Ev_EnvironmentEvent 6=Ev_CallEvent 7=Ev_IntegratedServiceEvent 8=Ev_RunEvent *)
 Definition ew_key_table : list (N * N) := [(0, 0); (1, 0); (2, 0); (3, 1); (4, 2); (5, 2); (6, 2); (7, 2); (8, 2)].
